@@ -1,9 +1,447 @@
-//! c18 -- placeholder; implemented by the owning property module.
-use serde_json::{json, Value};
+//! c18 -- virtual-time scheduler (AsyncDriver) and async CPU runner observations.
+//!
+//! Thin adapter, no semantics of its own:
+//!  * `c18.sched`  : interpret scripted tasks (generic `async fn`s that call the crate's public
+//!    `sleep_cycles` / `emit_event` / `current_cycle`) on a real `AsyncDriver`, call `run_for` with the
+//!    requested budgets and report what was observed (resumption log, `DriverRunResult`s, `clock()`).
+//!  * `c18.cpu`    : build two identical `CoreRuntime`s from a memory image / register file, drive one
+//!    with `AsyncRuntimeRunner::run_instructions`, the other with `CoreRuntime::step`, report both.
+//!
+//! All verdicts are computed on the Python side (vp_harness/props/c18.py).
+use crate::util::{err, get_u64};
+use sc62015_core::async_driver::{
+    current_cycle, emit_event, sleep_cycles, AsyncDriver, DriverEvent,
+};
+use sc62015_core::llama::opcodes::RegName;
+use sc62015_core::llama::state::PowerState;
+use sc62015_core::{collect_registers, AsyncRuntimeRunner, CoreRuntime, TimerContext};
+use serde_json::{json, Map, Value};
+use std::cell::{Cell, RefCell};
+use std::future::Future;
+use std::pin::Pin;
+use std::rc::Rc;
+use std::task::{Context, Poll};
 
 #[derive(Default)]
 pub struct State {}
 
-pub fn handle(verb: &str, _req: &Value, _st: &mut State) -> Value {
-    json!({"ok": false, "error": format!("c18.{verb} not implemented")})
+// ------------------------------------------------------------------------------------------------
+// scripted tasks
+// ------------------------------------------------------------------------------------------------
+
+#[derive(Clone)]
+enum Op {
+    Sleep(u64),
+    /// Return `Poll::Pending` once without registering a wake-up (the crate's own unit test
+    /// `pending_without_sleep_advances_by_one` documents what the driver does with it).
+    Yield,
+}
+
+#[derive(Clone)]
+struct Script {
+    at: u64,
+    start_emit: Option<u32>,
+    ops: Vec<(Op, Option<u32>)>,
+}
+
+struct YieldOnce {
+    polled: bool,
+}
+
+impl Future for YieldOnce {
+    type Output = ();
+    fn poll(self: Pin<&mut Self>, _cx: &mut Context<'_>) -> Poll<()> {
+        let this = self.get_mut();
+        if this.polled {
+            Poll::Ready(())
+        } else {
+            this.polled = true;
+            Poll::Pending
+        }
+    }
+}
+
+struct Shared {
+    /// (task, step index or -1 for the first poll, current_cycle(), index of the run_for call)
+    log: RefCell<Vec<(u64, i64, u64, u64)>>,
+    call: Cell<u64>,
+    done: Cell<u64>,
+}
+
+async fn scripted(id: u64, script: Script, sh: Rc<Shared>) {
+    sh.log
+        .borrow_mut()
+        .push((id, -1, current_cycle(), sh.call.get()));
+    if let Some(ev) = script.start_emit {
+        emit_event(DriverEvent::User(ev));
+    }
+    for (i, (op, ev)) in script.ops.iter().enumerate() {
+        match op {
+            Op::Sleep(d) => sleep_cycles(*d).await,
+            Op::Yield => YieldOnce { polled: false }.await,
+        }
+        sh.log
+            .borrow_mut()
+            .push((id, i as i64, current_cycle(), sh.call.get()));
+        if let Some(ev) = ev {
+            emit_event(DriverEvent::User(*ev));
+        }
+    }
+    sh.done.set(sh.done.get() + 1);
+}
+
+fn parse_script(v: &Value) -> Result<Script, String> {
+    let at = get_u64(v, "at", 0);
+    let start_emit = v.get("se").and_then(|x| x.as_u64()).map(|x| x as u32);
+    let mut ops = Vec::new();
+    if let Some(arr) = v.get("ops").and_then(|x| x.as_array()) {
+        for o in arr {
+            let d = o.get(0).ok_or("op without duration")?;
+            let op = if let Some(u) = d.as_u64() {
+                Op::Sleep(u)
+            } else if d.as_i64().map(|x| x < 0).unwrap_or(false) {
+                Op::Yield
+            } else {
+                return Err(format!("bad op duration {d}"));
+            };
+            let ev = o.get(1).and_then(|x| x.as_u64()).map(|x| x as u32);
+            ops.push((op, ev));
+        }
+    }
+    Ok(Script {
+        at,
+        start_emit,
+        ops,
+    })
+}
+
+fn run_sched(case: &Value) -> Value {
+    let clock0 = get_u64(case, "clock0", 0);
+    let mut scripts = Vec::new();
+    if let Some(arr) = case.get("tasks").and_then(|x| x.as_array()) {
+        for t in arr {
+            match parse_script(t) {
+                Ok(s) => scripts.push(s),
+                Err(e) => return err(e),
+            }
+        }
+    }
+    let budgets: Vec<u64> = case
+        .get("budgets")
+        .and_then(|x| x.as_array())
+        .map(|a| a.iter().map(|x| x.as_u64().unwrap_or(0)).collect())
+        .unwrap_or_default();
+    let tail_budget = get_u64(case, "tail_budget", 0);
+    let tail_max = get_u64(case, "tail_max", 0);
+
+    let sh = Rc::new(Shared {
+        log: RefCell::new(Vec::new()),
+        call: Cell::new(0),
+        done: Cell::new(0),
+    });
+    let mut driver = if case.get("clock0").is_some() {
+        AsyncDriver::with_clock(clock0)
+    } else {
+        AsyncDriver::new()
+    };
+    let mut results: Vec<Value> = Vec::new();
+    let mut spawn_clock: Vec<Value> = vec![Value::Null; scripts.len()];
+    let mut used_budgets: Vec<u64> = Vec::new();
+    let ntasks = scripts.len() as u64;
+    let mut call: u64 = 0;
+    let mut tail_calls: u64 = 0;
+    loop {
+        let budget = if (call as usize) < budgets.len() {
+            budgets[call as usize]
+        } else {
+            // tail phase: keep calling until every task finished and the driver reports MaxCycles
+            if tail_calls >= tail_max {
+                break;
+            }
+            tail_calls += 1;
+            tail_budget
+        };
+        for (i, s) in scripts.iter().enumerate() {
+            if s.at == call {
+                spawn_clock[i] = json!(driver.clock());
+                driver.spawn(scripted(i as u64, s.clone(), sh.clone()));
+            }
+        }
+        sh.call.set(call);
+        let r = driver.run_for(budget);
+        used_budgets.push(budget);
+        let ev = match r.event {
+            DriverEvent::MaxCycles => Value::Null,
+            DriverEvent::User(x) => json!(x),
+        };
+        results.push(json!([ev, r.cycles_executed, driver.clock()]));
+        call += 1;
+        if (call as usize) >= budgets.len()
+            && r.event == DriverEvent::MaxCycles
+            && sh.done.get() == ntasks
+            && scripts.iter().all(|s| s.at < call)
+        {
+            break;
+        }
+    }
+    let log: Vec<Value> = sh
+        .log
+        .borrow()
+        .iter()
+        .map(|(t, s, c, k)| json!([t, s, c, k]))
+        .collect();
+    json!({
+        "ok": true,
+        "log": log,
+        "results": results,
+        "budgets": used_budgets,
+        "spawn_clock": spawn_clock,
+        "done": sh.done.get(),
+    })
+}
+
+// ------------------------------------------------------------------------------------------------
+// CPU: AsyncRuntimeRunner::run_instructions vs CoreRuntime::step on identical twins
+// ------------------------------------------------------------------------------------------------
+
+fn hex_decode(s: &str) -> Vec<u8> {
+    let b = s.as_bytes();
+    let mut out = Vec::with_capacity(b.len() / 2);
+    let nib = |c: u8| -> u8 {
+        match c {
+            b'0'..=b'9' => c - b'0',
+            b'a'..=b'f' => c - b'a' + 10,
+            b'A'..=b'F' => c - b'A' + 10,
+            _ => 0,
+        }
+    };
+    let mut i = 0;
+    while i + 1 < b.len() {
+        out.push((nib(b[i]) << 4) | nib(b[i + 1]));
+        i += 2;
+    }
+    out
+}
+
+fn hex_encode(data: &[u8]) -> String {
+    const H: &[u8; 16] = b"0123456789abcdef";
+    let mut s = String::with_capacity(data.len() * 2);
+    for b in data {
+        s.push(H[(b >> 4) as usize] as char);
+        s.push(H[(b & 15) as usize] as char);
+    }
+    s
+}
+
+fn reg_by_name(name: &str) -> Option<RegName> {
+    crate::cpu::reg_by_name(name)
+}
+
+fn build_runtime(case: &Value) -> CoreRuntime {
+    let mut rt = CoreRuntime::new();
+    if let Some(chunks) = case.get("image").and_then(|x| x.as_array()) {
+        for ch in chunks {
+            let addr = ch.get(0).and_then(|x| x.as_u64()).unwrap_or(0) as usize;
+            let data = hex_decode(ch.get(1).and_then(|x| x.as_str()).unwrap_or(""));
+            rt.load_rom(&data, addr);
+        }
+    }
+    if let Some(im) = case.get("imem").and_then(|x| x.as_array()) {
+        for pair in im {
+            let off = pair.get(0).and_then(|x| x.as_u64()).unwrap_or(0) as u32;
+            let val = pair.get(1).and_then(|x| x.as_u64()).unwrap_or(0) as u8;
+            rt.memory.write_internal_byte(off & 0xFF, val);
+        }
+    }
+    if let Some(regs) = case.get("regs").and_then(|x| x.as_object()) {
+        let order = ["BA", "I", "X", "Y", "U", "S", "PC", "F", "IMR"];
+        for n in order.iter() {
+            if let Some(v) = regs.get(*n).and_then(|x| x.as_u64()) {
+                rt.state.set_reg(reg_by_name(n).unwrap(), v as u32);
+            }
+        }
+    }
+    if let Some(t) = case.get("timer") {
+        let enabled = t.get("enabled").and_then(|x| x.as_bool()).unwrap_or(false);
+        let mti = get_u64(t, "mti", 0) as i32;
+        let sti = get_u64(t, "sti", 0) as i32;
+        *rt.timer = TimerContext::new(enabled, mti, sti);
+        rt.timer.reset(0);
+        if let Some(k) = t.get("kb_irq").and_then(|x| x.as_bool()) {
+            rt.timer.set_keyboard_irq_enabled(k);
+        }
+    }
+    if let Some(keys) = case.get("keys").and_then(|x| x.as_array()) {
+        if let Some(kb) = rt.keyboard.as_mut() {
+            for k in keys {
+                kb.press_matrix_code(k.as_u64().unwrap_or(0) as u8, &mut rt.memory);
+            }
+        }
+    }
+    rt
+}
+
+fn observe(rt: &CoreRuntime, image_base: &[u8]) -> Value {
+    let mut m = Map::new();
+    let regs = collect_registers(&rt.state);
+    let mut names: Vec<&String> = regs.keys().collect();
+    names.sort();
+    let mut rj = Map::new();
+    for n in names {
+        rj.insert(n.clone(), json!(regs[n]));
+    }
+    m.insert("regs".into(), Value::Object(rj));
+    m.insert(
+        "power".into(),
+        json!(match rt.state.power_state() {
+            PowerState::Running => "running",
+            PowerState::Halted => "halted",
+            PowerState::Off => "off",
+        }),
+    );
+    m.insert("instr".into(), json!(rt.instruction_count()));
+    m.insert("cycles".into(), json!(rt.cycle_count()));
+    m.insert("imem".into(), json!(hex_encode(rt.memory.internal_slice())));
+    // external memory: bytes that differ from the initial image (a neutral observation)
+    let ext = rt.memory.external_slice();
+    let mut changed: Vec<Value> = Vec::new();
+    let n = ext.len().min(image_base.len());
+    for i in 0..n {
+        if ext[i] != image_base[i] {
+            if changed.len() < 4096 {
+                changed.push(json!([i, ext[i]]));
+            }
+        }
+    }
+    m.insert("ext_changed".into(), Value::Array(changed));
+    m.insert("reads".into(), json!(rt.memory.memory_read_count()));
+    m.insert("writes".into(), json!(rt.memory.memory_write_count()));
+    let (ti, ii) = rt.timer.snapshot_info();
+    m.insert("timer".into(), serde_json::to_value(&ti).unwrap_or(Value::Null));
+    let mut iv = serde_json::to_value(&ii).unwrap_or(Value::Null);
+    if let Some(o) = iv.as_object_mut() {
+        o.remove("irq_bit_watch");
+    }
+    m.insert("irq".into(), iv);
+    m.insert("next_mti".into(), json!(rt.timer.next_mti));
+    m.insert("next_sti".into(), json!(rt.timer.next_sti));
+    m.insert("call_depth".into(), json!(rt.state.call_depth()));
+    if let Some(kb) = rt.keyboard.as_ref() {
+        m.insert("kb_fifo".into(), json!(kb.fifo_len()));
+    }
+    Value::Object(m)
+}
+
+fn run_cpu(case: &Value) -> Value {
+    let warm = get_u64(case, "warm", 0) as usize;
+    let slice = get_u64(case, "slice", 10_000);
+    let default_slice = case.get("slice").is_none();
+    let calls: Vec<usize> = case
+        .get("calls")
+        .and_then(|x| x.as_array())
+        .map(|a| a.iter().map(|x| x.as_u64().unwrap_or(0) as usize).collect())
+        .unwrap_or_default();
+    let fresh_runner = case
+        .get("fresh_runner")
+        .and_then(|x| x.as_bool())
+        .unwrap_or(false);
+
+    // --- synchronous twin
+    let mut sync_rt = build_runtime(case);
+    let base: Vec<u8> = sync_rt.memory.external_slice().to_vec();
+    let mut sync_out = Vec::new();
+    let warm_err_s = sync_rt.step(warm).err().map(|e| e.to_string());
+    let sync_start = observe(&sync_rt, &base);
+    for n in calls.iter() {
+        let i0 = sync_rt.instruction_count();
+        let c0 = sync_rt.cycle_count();
+        let e = sync_rt.step(*n).err().map(|e| e.to_string());
+        sync_out.push(json!({
+            "err": e,
+            "d_instr": sync_rt.instruction_count() - i0,
+            "d_cycles": sync_rt.cycle_count() - c0,
+            "state": observe(&sync_rt, &base),
+        }));
+    }
+
+    // --- asynchronous twin
+    let mut async_rt = build_runtime(case);
+    let warm_err_a = async_rt.step(warm).err().map(|e| e.to_string());
+    let async_start = observe(&async_rt, &base);
+    let rc = Rc::new(RefCell::new(async_rt));
+    let mk = |rc: &Rc<RefCell<CoreRuntime>>| {
+        let r = AsyncRuntimeRunner::new(rc.clone());
+        if default_slice {
+            r
+        } else {
+            r.with_slice_cycles(slice)
+        }
+    };
+    let mut runner = mk(&rc);
+    let mut async_out = Vec::new();
+    for n in calls.iter() {
+        if fresh_runner {
+            runner = mk(&rc);
+        }
+        let (i0, c0) = {
+            let rt = rc.borrow();
+            (rt.instruction_count(), rt.cycle_count())
+        };
+        let res = runner.run_instructions(*n);
+        let rt = rc.borrow();
+        let (e, si, sc) = match res {
+            Ok(st) => (
+                Value::Null,
+                json!(st.instructions_executed),
+                json!(st.cycles_executed),
+            ),
+            Err(e) => (json!(e.to_string()), Value::Null, Value::Null),
+        };
+        async_out.push(json!({
+            "err": e,
+            "stats_instr": si,
+            "stats_cycles": sc,
+            "d_instr": rt.instruction_count() - i0,
+            "d_cycles": rt.cycle_count() - c0,
+            "state": observe(&rt, &base),
+        }));
+    }
+    json!({
+        "ok": true,
+        "warm_err": [warm_err_s, warm_err_a],
+        "start": [sync_start, async_start],
+        "sync": sync_out,
+        "async": async_out,
+    })
+}
+
+pub fn handle(verb: &str, req: &Value, _st: &mut State) -> Value {
+    match verb {
+        "sched" | "cpu" => {
+            let f = if verb == "sched" { run_sched } else { run_cpu };
+            let cases = match req.get("cases").and_then(|x| x.as_array()) {
+                Some(c) => c,
+                None => return err("cases missing"),
+            };
+            let mut out = Vec::with_capacity(cases.len());
+            for c in cases {
+                let r = std::panic::catch_unwind(std::panic::AssertUnwindSafe(|| f(c)));
+                out.push(match r {
+                    Ok(v) => v,
+                    Err(e) => {
+                        let msg = if let Some(s) = e.downcast_ref::<&str>() {
+                            s.to_string()
+                        } else if let Some(s) = e.downcast_ref::<String>() {
+                            s.clone()
+                        } else {
+                            "panic".to_string()
+                        };
+                        json!({"ok": false, "panic": msg})
+                    }
+                });
+            }
+            json!({"ok": true, "results": out})
+        }
+        _ => err(format!("unknown c18 verb {verb}")),
+    }
 }
